@@ -119,6 +119,8 @@ pub struct TreeOut {
     /// for every entry of env.detach_role: was a node actually detached
     pub role_detached: Vec<bool>,
     pub sink: Option<MSink>,
+    /// control state before end(): mode, template modes, stack / active-formatting names, flags
+    pub ctl_summary: String,
     pub tb_key: String,
     pub tok_key: String,
     pub pre_end_dom: String,
@@ -239,8 +241,15 @@ pub fn make_parser(cfg: &TreeCfg) -> Parser<MSink> {
     }
 }
 
+fn line_probe_fn(addr: usize) -> u64 {
+    // the parser lives in run_tree's frame for the whole time the probe is installed
+    let t = unsafe { &*(addr as *const html5ever::tokenizer::Tokenizer<html5ever::tree_builder::TreeBuilder<usize, MSink>>) };
+    t.verif_current_line()
+}
+
 pub fn run_tree(cfg: &TreeCfg, sched: &[Feed], env: &Env, end: bool) -> TreeOut {
     let p = make_parser(cfg);
+    p.tokenizer.sink.sink.line_probe.set(Some((&p.tokenizer as *const _ as usize, line_probe_fn)));
     let mut out = TreeOut::default();
     let mut pauses = 0usize;
     let mut susp = 0usize;
@@ -343,6 +352,23 @@ pub fn run_tree(cfg: &TreeCfg, sched: &[Feed], env: &Env, end: bool) -> TreeOut 
     }
     out.suspensions = susp;
     out.tb_key = tb_key(&p);
+    out.ctl_summary = {
+        let d = p.tokenizer.sink.verif_dump();
+        let dom = p.tokenizer.sink.sink.dom.borrow();
+        let name = |n: &usize| -> String {
+            match dom.elem(*n) {
+                Some((ns, l)) => format!("{}:{l}", if ns == HTML_NS { "h" } else if ns == SVG_NS { "s" } else if ns == MATHML_NS { "m" } else { "?" }),
+                None => "#".into(),
+            }
+        };
+        let stack: Vec<String> = d.open_elems.iter().map(name).collect();
+        let afe: Vec<String> = d.active_formatting.iter().map(|e| e.as_ref().map(|(h, _)| name(h)).unwrap_or_else(|| "|".into())).collect();
+        let pending: String = d.pending_table_text.iter().map(|(_, t)| t.as_str()).collect();
+        format!(
+            "mode={} orig={:?} tmpl={:?} stack={:?} afe={:?} fok={} head={} form={} pending={:?} skiplf={}",
+            d.mode, d.orig_mode, d.template_modes, stack, afe, d.frameset_ok, d.head_elem.is_some(), d.form_elem.is_some(), pending, d.ignore_lf
+        )
+    };
     {
         let d = p.tokenizer.verif_dump();
         // current_line is not part of the state key (unbounded counter, checked by the line oracle)
@@ -362,6 +388,7 @@ pub fn run_tree(cfg: &TreeCfg, sched: &[Feed], env: &Env, end: bool) -> TreeOut 
     if end {
         p.tokenizer.end();
     }
+    p.tokenizer.sink.sink.line_probe.set(None);
     let sink = p.tokenizer.sink.sink;
     out.sink = Some(sink);
     out
